@@ -41,16 +41,19 @@ type PSpec struct {
 	ProbeFail     int          `json:"probe_fail,omitempty"`  // failure_threshold
 	ProbeDelay    int          `json:"probe_delay,omitempty"` // initial_delay_seconds
 	Liveness      bool         `json:"liveness,omitempty"`
-	LiveFail      int          `json:"live_fail,omitempty"`  // liveness failure_threshold
-	ProbeSeq      []int        `json:"probe_seq,omitempty"`  // scripted probe outcomes (1 ok, 0 fail), then the switch value
-	ProbeExec     string       `json:"probe_exec,omitempty"` // readiness (or, for daemons with Liveness, liveness) probe is this shell command instead of http
-	StopCmd       string       `json:"stop_cmd,omitempty"`   // shutdown.command
+	LiveFail      int          `json:"live_fail,omitempty"`     // liveness failure_threshold
+	ProbeSeq      []int        `json:"probe_seq,omitempty"`     // scripted probe outcomes (1 ok, 0 fail), then the switch value
+	ProbeSlowMs   int          `json:"probe_slow_ms,omitempty"` // the probe endpoint answers this late
+	ProbeExec     string       `json:"probe_exec,omitempty"`    // readiness (or, for daemons with Liveness, liveness) probe is this shell command instead of http
+	StopCmd       string       `json:"stop_cmd,omitempty"`      // shutdown.command
 	Disabled      bool         `json:"disabled,omitempty"`
 	Daemon        bool         `json:"daemon,omitempty"`
 	StopTimeout   int          `json:"stop_timeout,omitempty"`
 	Out           []sim.Chunk  `json:"out,omitempty"`
 	Replicas      int          `json:"replicas,omitempty"`
 	Tag           string       `json:"tag,omitempty"`
+	StopMark      string       `json:"stop_mark,omitempty"` // file into which the shutdown command writes `date +%s%N` when it is done
+	RealExe       string       `json:"real_exe,omitempty"`  // entrypoint of a real (not simulated) command, e.g. one that cannot be started
 }
 
 // Op is an action of the harness (an API call or an environment action).
@@ -84,7 +87,8 @@ type LifeSpec struct {
 	IsStrict        bool       `json:"is_strict,omitempty"`
 	EndWithShutdown bool       `json:"end_with_shutdown,omitempty"` // after ops done, if Run() still going: ShutDownProject
 	NoOutEvents     bool       `json:"no_out_events,omitempty"`
-	ViaClient       bool       `json:"via_client,omitempty"` // API requests go through the REST server and the bundled client
+	ViaClient       bool       `json:"via_client,omitempty"`    // API requests go through the REST server and the bundled client
+	PreRunStart     []string   `json:"pre_run_start,omitempty"` // StartProcess requests served before Run() is called
 }
 
 func (s *LifeSpec) proc(name string) *PSpec {
@@ -108,6 +112,9 @@ type probeServer struct {
 	ok   map[string]bool  // current outcome per process
 	seq  map[string][]int // scripted outcome sequence per process (1 ok, 0 fail), consumed first
 	hits map[string]int
+	// delayMs: the answer to a probe of that process is held back this long
+	// (the request is recorded at once)
+	delayMs map[string]int
 }
 
 func newProbeServer(w *sim.World) (*probeServer, error) {
@@ -115,7 +122,7 @@ func newProbeServer(w *sim.World) (*probeServer, error) {
 	if err != nil {
 		return nil, err
 	}
-	ps := &probeServer{w: w, ln: ln, ok: map[string]bool{}, seq: map[string][]int{}, hits: map[string]int{}}
+	ps := &probeServer{w: w, ln: ln, ok: map[string]bool{}, seq: map[string][]int{}, hits: map[string]int{}, delayMs: map[string]int{}}
 	mux := http.NewServeMux()
 	mux.HandleFunc("/", func(rw http.ResponseWriter, r *http.Request) {
 		name := strings.Trim(r.URL.Path, "/")
@@ -126,6 +133,7 @@ func newProbeServer(w *sim.World) (*probeServer, error) {
 			ps.seq[name] = q[1:]
 		}
 		ps.hits[name]++
+		delay := ps.delayMs[name]
 		ps.mu.Unlock()
 		code := 200
 		if !ok {
@@ -134,6 +142,9 @@ func newProbeServer(w *sim.World) (*probeServer, error) {
 		// only count probes that reach a live command: the prober may fire
 		// after exit, which the supervisor ignores
 		w.Rec(sim.Event{Kind: sim.EvProbe, Proc: name, Code: code, Flag: ok})
+		if delay > 0 {
+			time.Sleep(time.Duration(delay) * time.Millisecond)
+		}
 		rw.WriteHeader(code)
 	})
 	ps.srv = &http.Server{Handler: mux}
@@ -171,7 +182,11 @@ func BuildYAML(s *LifeSpec, worldID int, probePort int) string {
 	for i := range s.Procs {
 		p := &s.Procs[i]
 		fmt.Fprintf(&b, "  %s:\n", p.Name)
-		fmt.Fprintf(&b, "    command: %s\n", yq(sim.FormatCommand(p.script(worldID), "")))
+		if p.RealExe != "" {
+			fmt.Fprintf(&b, "    entrypoint:\n      - %s\n", yq(p.RealExe))
+		} else {
+			fmt.Fprintf(&b, "    command: %s\n", yq(sim.FormatCommand(p.script(worldID), "")))
+		}
 		if p.BadDir {
 			b.WriteString("    working_dir: /nonexistent/verif/dir\n")
 		}
@@ -273,6 +288,7 @@ type LifeRun struct {
 	custom     map[string]func(env *sim.Env, lr *LifeRun, op Op) error
 	api        *apiServer
 	Extra      map[string]any
+	Blocked    []string // via-client requests that did not return within their (generous) bound
 }
 
 func parseWhen(s string) (kind, a string, n int) {
@@ -334,6 +350,9 @@ func RunLifeOpts(seed int64, spec *LifeSpec, lo LifeOpts) *LifeRun {
 			if len(spec.Procs[i].ProbeSeq) > 0 {
 				ps.seq[spec.Procs[i].Name] = append([]int(nil), spec.Procs[i].ProbeSeq...)
 			}
+			if spec.Procs[i].ProbeSlowMs > 0 {
+				ps.delayMs[spec.Procs[i].Name] = spec.Procs[i].ProbeSlowMs
+			}
 		}
 	}
 	yaml := BuildYAML(spec, w.ID, port)
@@ -352,6 +371,15 @@ func RunLifeOpts(seed int64, spec *LifeSpec, lo LifeOpts) *LifeRun {
 	}
 	if lo.Setup != nil {
 		lo.Setup(env, lr)
+	}
+	for _, n := range spec.PreRunStart {
+		name := n
+		_ = env.Call("start", name, 0, func() error {
+			if lr.api != nil {
+				return lr.api.client.StartProcess(name)
+			}
+			return env.Runner.StartProcess(name)
+		})
 	}
 	env.Start()
 
@@ -534,6 +562,11 @@ func runOps(lr *LifeRun, env *sim.Env, ps *probeServer, spec *LifeSpec) {
 			parts := strings.Split(op.When, ":")
 			st := strings.Join(parts[2:], ":")
 			ok = waitTrig(w, 10*time.Second, func(v *sim.WorldView) bool { return v.Has(sim.EvHealth, a, st) })
+		case "probe":
+			if n == 0 {
+				n = 1
+			}
+			ok = waitTrig(w, 12*time.Second, func(v *sim.WorldView) bool { return v.Count(sim.EvProbe, a) >= n })
 		case "signal":
 			ok = waitTrig(w, 12*time.Second, func(v *sim.WorldView) bool { return v.Count(sim.EvSignal, a) >= 1 })
 		case "after":
@@ -642,6 +675,21 @@ func runOps(lr *LifeRun, env *sim.Env, ps *probeServer, spec *LifeSpec) {
 		if op.Async {
 			wg.Add(1)
 			go func(i int, op Op) { defer wg.Done(); do(i, op) }(i, op)
+		} else if lr.api != nil && (op.Op == "start" || op.Op == "stop" || op.Op == "restart" || op.Op == "scale") {
+			// through the client: the server side of these requests takes
+			// milliseconds here; a client call that has not returned after 25 s
+			// never will
+			fin := make(chan struct{})
+			go func(i int, op Op) { do(i, op); close(fin) }(i, op)
+			select {
+			case <-fin:
+			case <-time.After(25 * time.Second):
+				mu.Lock()
+				lr.Blocked = append(lr.Blocked, fmt.Sprintf("%s %s (request %d of the history)", op.Op, op.Proc, i))
+				mu.Unlock()
+				wg.Wait()
+				return
+			}
 		} else {
 			do(i, op)
 		}
